@@ -8,6 +8,7 @@ IEEE evaluation (that part is the differential run).
 -/
 import DastardV.Model.C13
 import DastardV.Lemmas.C13Sums
+import DastardV.Lemmas.C13Oracle
 namespace DastardV.C13
 
 /-! ### signed / unsigned interpretation of a raw sample -/
@@ -361,6 +362,151 @@ theorem C13_formulas_equal_definitions (inp : Input) (hv : Valid inp) :
     · have hok' : setPBok inp.nsamp P B = false := by simpa using hok
       simp only [hok', Bool.not_false, if_true, Bool.false_eq_true, if_false]
       exact ⟨_, rfl, hbase, hptd, havg, hms, hispk, rfl, rfl, rfl⟩
+
+/-! ### the oracle and the theorem are about the same thing
+
+`chkC13` (the function that judges the REAL code's output on every run) accepts every output that
+reports exactly the model's values — hence, by the umbrella theorem, exactly the definitions.  So an
+alarm of the oracle on the implementation can only come from the implementation's deviation from the
+definitions beyond the rounding tolerances, never from the oracle disagreeing with the theorems. -/
+
+/-- `o` reports exactly the values of `m` (square roots taken exactly) -/
+structure Exact (m : Out) (o : ImplOut) : Prop where
+  ptm : o.ptm = .fin m.ptm
+  ptd : ∀ d, m.ptd = some d → o.ptd = .fin d
+  avg : o.avg = .fin m.avg
+  peak : o.peak = .fin m.peak
+  rms : ∃ s, o.rms = .fin s ∧ 0 ≤ s ∧ s * s = m.ms
+  coefs : ∀ c, m.coefs = some c → o.coefs = c.map FV.fin
+  rsd : ∀ v, m.rvar = some v → ∃ s, o.rsd = .fin s ∧ 0 ≤ s ∧ s * s = v
+
+theorem pulseAverage_eq (m : Q) (post : List Q) (hp : post ≠ []) :
+    Spec.pulseAverage m post = meanQ post - m := by
+  unfold Spec.pulseAverage meanQ
+  rw [sumQ_map_sub, List.length_map]
+  have hN : (post.length : Q) ≠ 0 := natCast_ne_zero (by
+    intro h; exact hp (List.length_eq_zero_iff.mp h))
+  grind
+
+theorem C13_oracle_accepts_exact (inp : Input) (hv : Valid inp) (m : Out) (hm : analyze inp = .ok m)
+    (o : ImplOut) (he : Exact m o) : chkC13 inp o = none := by
+  obtain ⟨out, hout, hptm, hptd, havg, hms, hpk, hmat⟩ := C13_formulas_equal_definitions inp hv
+  rw [hm] at hout
+  cases hout
+  obtain ⟨h2, hpost, hlen, hwf⟩ := hv
+  obtain ⟨eptm, eptd, eavg, epeak, ⟨s, erms, hs0, hss⟩, ecoefs, ersd⟩ := he
+  unfold chkC13 chkC13With
+  generalize hx : dataVec inp.signed inp.data = x at *
+  have hxl : x.length = inp.data.length := by rw [← hx]; simp [dataVec]
+  simp only
+  rw [if_neg (by omega)]
+  generalize hpre : List.take inp.npre x = pre at *
+  generalize hpo : List.drop inp.npre x = post at *
+  have hprelen : pre.length = inp.npre := by rw [← hpre]; simp [List.length_take]; omega
+  have hpostne : post ≠ [] := by
+    intro h
+    have := congrArg List.length h
+    rw [← hpo] at this
+    simp [List.length_drop] at this; omega
+  cases hpc : post with
+  | nil => exact absurd hpc hpostne
+  | cons y ys =>
+    rw [← hpc]
+    have hmk : mkRef pre post = some
+        { m := Spec.pretrigMean pre, d := some (Spec.pretrigDelta pre), a := meanQ post,
+          q2 := meanQ (post.map fun v => v * v), ms := Spec.pulseMeanSquare (Spec.pretrigMean pre) post,
+          mx := ys.foldl maxQ y } := by
+      rw [hpc]; unfold mkRef; simp only
+      rw [if_neg (by omega)]
+    rw [hmk]
+    simp only
+    -- the peak: the model's value is the attained maximum minus the mean
+    have hpeak : m.peak = ys.foldl maxQ y - Spec.pretrigMean pre := by
+      have h1 : Spec.IsPeak m.ptm post (ys.foldl maxQ y - m.ptm) :=
+        spec_peak_isPeak m.ptm post _ (by rw [hpc]; rfl)
+      rw [← hptm]
+      exact isPeak_unique m.ptm post _ _ hpk h1
+    have hu := u53_nonneg
+    have e1 : chkVal "C13:pretrig-mean" o.ptm (Spec.pretrigMean pre) (2 * u53 * absQ (Spec.pretrigMean pre)) = none := by
+      rw [eptm, hptm]; apply chkVal_exact
+      exact Rat.mul_nonneg (Rat.mul_nonneg (by decide) hu) (absQ_nonneg _)
+    have e2 : chkVal "C13:pretrig-delta" o.ptd (Spec.pretrigDelta pre) (4 * u53 * absQ (Spec.pretrigDelta pre)) = none := by
+      rw [eptd _ hptd]; apply chkVal_exact
+      exact Rat.mul_nonneg (Rat.mul_nonneg (by decide) hu) (absQ_nonneg _)
+    have e3 : chkVal "C13:pulse-average" o.avg (meanQ post - Spec.pretrigMean pre)
+        (4 * u53 * (absQ (meanQ post) + absQ (Spec.pretrigMean pre))) = none := by
+      rw [eavg, havg, hptm, pulseAverage_eq _ _ hpostne]; apply chkVal_exact
+      exact Rat.mul_nonneg (Rat.mul_nonneg (by decide) hu) (Rat.add_nonneg (absQ_nonneg _) (absQ_nonneg _))
+    have e4 : chkVal "C13:peak" (.fin m.peak) (ys.foldl maxQ y - Spec.pretrigMean pre)
+        (4 * u53 * (absQ (ys.foldl maxQ y) + absQ (Spec.pretrigMean pre))) = none := by
+      rw [hpeak]; apply chkVal_exact
+      exact Rat.mul_nonneg (Rat.mul_nonneg (by decide) hu) (Rat.add_nonneg (absQ_nonneg _) (absQ_nonneg _))
+    have hq2 : 0 ≤ meanQ (post.map fun v => v * v) := meanQ_nonneg _ (sumQ_mul_self_nonneg post)
+    have e5 : within (s * s) (Spec.pulseMeanSquare (Spec.pretrigMean pre) post)
+        (16 * u53 * (meanQ (post.map fun v => v * v) + 2 * absQ (Spec.pretrigMean pre * meanQ post)
+          + Spec.pretrigMean pre * Spec.pretrigMean pre) + 4 * u53 * (s * s)) = true := by
+      rw [hss, hms, hptm]; apply within_self
+      apply Rat.add_nonneg
+      · apply Rat.mul_nonneg (Rat.mul_nonneg (by decide) hu)
+        apply Rat.add_nonneg (Rat.add_nonneg hq2 _) (mul_self_nonneg _)
+        exact Rat.mul_nonneg (by decide) (absQ_nonneg _)
+      · rw [← hptm, ← hms, ← hss]
+        exact Rat.mul_nonneg (Rat.mul_nonneg (by decide) hu) (mul_self_nonneg s)
+    rw [e1, e2, e3, epeak, erms]
+    simp only [e4, e5, hs0, and_self, if_true]
+    have hnotclamp : ¬ (ys.foldl maxQ y - Spec.pretrigMean pre < 0 ∧ m.peak = 0) := by
+      rw [hpeak]; intro h; grind
+    rw [if_neg hnotclamp]
+    simp only [firstSome]
+    -- the linear-model part
+    unfold matRefOf
+    cases hpb : inp.pb with
+    | none => rfl
+    | some pb =>
+      obtain ⟨P, B⟩ := pb
+      rw [hpb] at hmat
+      simp only at hmat ⊢
+      by_cases hok : setPBok inp.nsamp P B = true
+      · rw [if_pos hok] at hmat
+        obtain ⟨_, hc, hr⟩ := hmat
+        obtain ⟨hPwf, hBwf⟩ := hwf P B hpb
+        have hsh := (setPB_shapes inp.nsamp P B hPwf hBwf).mp hok
+        have hPc : P.c = inp.data.length := by rw [hsh.2.2.2.1, hlen]
+        rw [if_neg (by simp [hok, hPc])]
+        simp only [mkMatRef, hx]
+        rw [ecoefs _ hc]
+        rw [if_neg (show ¬ ((List.map FV.fin (Spec.coefs P.rows x)).length ≠ (Spec.coefs P.rows x).length) by simp)]
+        rw [coefs_exact "C13:model-coef" _ _ (by
+          intro t ht
+          obtain ⟨row, _, rfl⟩ := List.mem_map.mp ht
+          exact coefTol_nonneg row x)]
+        simp only
+        obtain ⟨sr, er, hsr0, hsrr⟩ := ersd _ hr
+        rw [er]
+        exact chkRoot_exact _ _ _ _ hsr0 hsrr (residTolOf_nonneg _ _ _ _ _)
+      · have hok' : setPBok inp.nsamp P B = false := by simpa using hok
+        rw [if_pos (by simp [hok'])]
+
+/-- non-vacuity of `Exact`: the unsigned record `0 0 | 3 3` has mean 0, delta 0, average 3, RMS 3, peak 3 -/
+example : ∃ m o, analyze { npre := 2, nsamp := 4, signed := false, data := [0, 0, 3, 3], pb := none } = .ok m ∧
+    Exact m o := by
+  have hv : Valid { npre := 2, nsamp := 4, signed := false, data := [0, 0, 3, 3], pb := none } :=
+    ⟨by decide, by decide, by decide, by intro P B h; cases h⟩
+  obtain ⟨out, hout, hptm, hptd, havg, hms, hpk, hmat⟩ := C13_formulas_equal_definitions _ hv
+  have hx : dataVec false [0, 0, 3, 3] = [0, 0, 3, 3] := by
+    simp [dataVec, sampleVal]
+  simp only [hx, List.take, List.drop] at hptm hptd havg hms hpk hmat
+  have h0 : out.ptm = 0 := by
+    rw [hptm]; simp [Spec.pretrigMean, meanQ, sumQ]; grind
+  have hms3 : (3 : Q) * 3 = out.ms := by
+    rw [hms, h0]; simp [Spec.pulseMeanSquare, meanQ, sumQ]; grind
+  refine ⟨out, { setErr := false, ptm := .fin out.ptm, ptd := .fin (Spec.pretrigDelta [0, 0]),
+                 avg := .fin out.avg, rms := .fin 3, peak := .fin out.peak, coefs := [], rsd := .fin 0,
+                 summary := none, coefBits := [] }, hout, ?_⟩
+  refine ⟨rfl, ?_, rfl, rfl, ⟨3, rfl, by decide, hms3⟩, ?_, ?_⟩
+  · intro d hd; rw [hptd] at hd; cases hd; rfl
+  · intro c hc; rw [hmat.2.1] at hc; cases hc
+  · intro v hv'; rw [hmat.2.2] at hv'; cases hv'
 
 /-- non-vacuity: an ordinary signed record with a 2-row projector satisfies `Valid` -/
 example : Valid { npre := 3, nsamp := 5, signed := true, data := [65535, 65535, 65535, 2, 5],
